@@ -1406,5 +1406,29 @@ pub fn eval_point_c08(dc: &Decaf, p: &Pt) -> Outcome {
             }
         }
     }
+    // coincidence partners: a DIFFERENT element W that shares one raw projective coordinate, or
+    // the raw product X*Y / T, with a Z != 1 representative A of this element (what an equality
+    // test built from too few coordinates, or from unscaled products, confuses). W is solved for.
+    // (one structured point in eight: each partner costs a root finding and a validity check)
+    if !p.x.is_zero() && (&p.x % 8u32).is_zero() {
+        for a in [&reps[2], &reps[3]] {
+            let c = coords_big(&el_coords(a));
+            let cands: Vec<(u8, BigUint, &str)> = vec![
+                (0, c[0].clone(), "x_W = X_A"), (1, c[1].clone(), "y_W = Y_A"), (2, f.mul(&c[0], &c[1]), "x_W*y_W = X_A*Y_A"), (2, c[3].clone(), "x_W*y_W = T_A"),
+                (0, c[1].clone(), "x_W = Y_A"), (1, c[0].clone(), "y_W = X_A"),
+            ];
+            for (kind, t, what) in cands {
+                for w in crate::sqrtclass::points_with(dc, kind, &t) {
+                    if !dc.valid(&w) || dc.c.same_class(&w, p) {
+                        continue;
+                    }
+                    let ew = el_from_big(&w.x, &w.y, &one, &f.mul(&w.x, &w.y));
+                    if *a == ew || ew == *a || a.vartime_compress().0 == ew.vartime_compress().0 {
+                        return Outcome::bad("point/eq-coincidence", Viol { key: format!("C08|coincidence-partner|{what}"), engine: "E3/points".into(), case: json!({"x": p.x.to_string(), "y": p.y.to_string(), "rep": 0, "two_primary_log": 0, "partner": {"x": w.x.to_string(), "y": w.y.to_string(), "relation": what}}), expected: "different elements compare unequal (both ways) and encode differently".into(), got: "== or equal encodings".into() });
+                    }
+                }
+            }
+        }
+    }
     Outcome::ok(class)
 }
